@@ -70,11 +70,23 @@ def table(name: str) -> Callable[[Callable[[Path], str]], Callable[[Path], str]]
     return deco
 
 
+TABLE_ERRORS: List[str] = []
+
+
 def regenerate(repo: Path, out_dir: Path) -> List[str]:
+    """regenerate every table; a table whose source no longer has the expected shape keeps its last good
+       file (so that the search for a failing input can still run against the model) and is reported in
+       TABLE_ERRORS — the caller treats that as a broken translation obligation"""
     from . import tables  # noqa: F401  (registers the generators)
     changed = []
+    TABLE_ERRORS.clear()
     for name, fn in sorted(GENERATORS.items()):
-        text = "-- GENERATED from /repo by harness/gen_tables.py on every run; do not edit\n" + fn(repo)
+        try:
+            body = fn(repo)
+        except (TableError, SyntaxError, OSError, KeyError, IndexError, ValueError) as exc:
+            TABLE_ERRORS.append(f"table {name} cannot be regenerated from the source: {type(exc).__name__}: {exc}")
+            continue
+        text = "-- GENERATED from /repo by harness/gen_tables.py on every run; do not edit\n" + body
         if write_if_changed(out_dir / f"{name}.lean", text):
             changed.append(name)
     return changed
